@@ -1,4 +1,5 @@
 import Ahbicht.Model.Extract
+import Ahbicht.Lemmas.Product
 import Ahbicht.Generated.NodeTypes
 /-!
 # C18 — key extraction partitions keys by range; all possible evaluations enumerated
@@ -173,7 +174,90 @@ theorem C18_union {o : Op} {l r : Expr} {xl xr x : KeyExtract} (hl : extractRaw 
   · rw [hs.2.1.2.2 k, hx.2.1]; exact ha.2.1.2.2 k
   · rw [hs.2.2.2.2 k, hx.2.2]; exact ha.2.2.2.2 k
 
-/-! ## enumeration: finding K2 -/
+/-! ## enumeration -/
+/-- **C18 (product).** The code's "combinations of a product, filtered on distinct keys" enumerates exactly the assignments of one
+value per key: every combination (`mem`), each once (`Nodup`).  For any key list without repetitions (sanitised lists are). -/
+theorem C18_assignments {α β : Type} [DecidableEq α] [DecidableEq β] (keys : List α) (vals : List β) (hk : keys.Nodup) (hv : vals.Nodup) :
+    (∀ z, z ∈ assignments keys vals ↔ (z.map (·.1) = keys ∧ ∀ p ∈ z, p.2 ∈ vals)) ∧ (assignments keys vals).Nodup :=
+  ⟨fun z => (mem_assignments keys vals hk z).trans (mem_productSpec keys vals z), nodup_assignments keys vals hk hv⟩
+
+theorem nodup_prod {α β : Type} (l₁ : List α) (l₂ : List β) (h₁ : l₁.Nodup) (h₂ : l₂.Nodup) :
+    (l₁.flatMap fun a => l₂.map fun b => (a, b)).Nodup := by
+  induction l₁ with
+  | nil => simp
+  | cons x xs ih =>
+    rw [List.nodup_cons] at h₁
+    simp only [List.flatMap_cons]
+    rw [List.nodup_append]
+    refine ⟨?_, ih h₁.2, ?_⟩
+    · exact nodup_map_of_injective _ (fun a b h => by cases h; rfl) _ h₂
+    · intro p hp q hq hpq
+      simp only [List.mem_map] at hp
+      obtain ⟨b, _, rfl⟩ := hp
+      simp only [List.mem_flatMap, List.mem_map] at hq
+      obtain ⟨a, ha, b', _, rfl⟩ := hq
+      cases hpq
+      exact h₁.1 ha
+
+/-- what "one value per key" means for the generated pair (format assignment, requirement assignment) -/
+def IsResult (fcKeys rcKeys : List (List Char)) (fr : List (List Char × Bool) × List (List Char × CFV)) : Prop :=
+  fr.1.map (·.1) = fcKeys ∧ fr.2.map (·.1) = rcKeys ∧ ∀ p ∈ fr.2, p.2 = .F ∨ p.2 = .U ∨ p.2 = .K
+
+/-- **C18 (generated results), partial: at least one key.** The generated list contains exactly the pairs of a truth assignment to the
+format keys and a FULFILLED/UNFULFILLED/UNKNOWN assignment to the requirement keys, each once.  The case without any key is finding K2. -/
+theorem C18_product_partial (fcKeys rcKeys : List (List Char)) (hf : fcKeys.Nodup) (hr : rcKeys.Nodup)
+    (hne : ¬ (fcKeys = [] ∧ rcKeys = [])) :
+    (∀ fr, fr ∈ genResults fcKeys rcKeys ↔ IsResult fcKeys rcKeys fr) ∧ (genResults fcKeys rcKeys).Nodup := by
+  have hvb : ([true, false] : List Bool).Nodup := by decide
+  have hvc : ([CFV.F, CFV.U, CFV.K, CFV.N] : List CFV).Nodup := by decide
+  -- the two component lists, with the dummy singletons of the code for an empty key list
+  have fcs_spec : ∀ z, z ∈ (if fcKeys.isEmpty then [[]] else assignments fcKeys [true, false]) ↔ z.map (·.1) = fcKeys := by
+    intro z
+    cases fcKeys with
+    | nil => simp
+    | cons k ks =>
+      simp only [List.isEmpty_cons, Bool.false_eq_true, ↓reduceIte]
+      rw [(C18_assignments (k :: ks) [true, false] hf hvb).1 z]
+      constructor
+      · exact fun h => h.1
+      · intro h; refine ⟨h, fun p _ => ?_⟩; cases p.2 <;> simp
+  have rcs_spec : ∀ z, z ∈ (if rcKeys.isEmpty then [[]] else assignments rcKeys [CFV.F, CFV.U, CFV.K, CFV.N]) ↔ z.map (·.1) = rcKeys := by
+    intro z
+    cases rcKeys with
+    | nil => simp
+    | cons k ks =>
+      simp only [List.isEmpty_cons, Bool.false_eq_true, ↓reduceIte]
+      rw [(C18_assignments (k :: ks) _ hr hvc).1 z]
+      constructor
+      · exact fun h => h.1
+      · intro h; refine ⟨h, fun p _ => ?_⟩; cases p.2 <;> simp
+  have fcs_nodup : (if fcKeys.isEmpty then [[]] else assignments fcKeys [true, false]).Nodup := by
+    split
+    · simp
+    · exact (C18_assignments fcKeys _ hf hvb).2
+  have rcs_nodup : (if rcKeys.isEmpty then [[]] else assignments rcKeys [CFV.F, CFV.U, CFV.K, CFV.N]).Nodup := by
+    split
+    · simp
+    · exact (C18_assignments rcKeys _ hr hvc).2
+  have hempty : (fcKeys.isEmpty && rcKeys.isEmpty) = false := by
+    cases fcKeys <;> cases rcKeys <;> simp_all
+  unfold genResults
+  simp only [hempty, Bool.false_eq_true, ↓reduceIte]
+  constructor
+  · intro fr
+    simp only [List.mem_filter, List.mem_flatMap, List.mem_map, List.all_eq_true, bne_iff_ne, ne_eq]
+    constructor
+    · rintro ⟨⟨f, hfm, r, hrm, rfl⟩, hN⟩
+      refine ⟨(fcs_spec f).1 hfm, (rcs_spec r).1 hrm, fun p hp => ?_⟩
+      have := hN p hp
+      cases hp2 : p.2 <;> simp_all
+    · rintro ⟨h1, h2, h3⟩
+      refine ⟨⟨fr.1, (fcs_spec _).2 h1, fr.2, (rcs_spec _).2 h2, rfl⟩, fun p hp => ?_⟩
+      rcases h3 p hp with h | h | h <;> simp [h]
+  · refine List.Nodup.sublist List.filter_sublist ?_
+    exact nodup_prod _ _ fcs_nodup rcs_nodup
+
+/-! ### finding K2 -/
 /-- with no requirement and no format key the code returns no result at all, although the product over zero keys has one element -/
 theorem C18_empty_counterexample : genResults [] [] = [] ∧ (productSpec ([] : List (List Char)) [true, false]).length = 1 := by decide
 
